@@ -1,10 +1,10 @@
 #!/bin/bash
-# usage: tools/confirm_seed.sh <prop> <mN>    (reads /tmp/seed-out/<prop>/<mN>)
+# usage: tools/confirm_seed.sh <prop> <mN> [dir]   (reads /tmp/seed-out/<prop>/<mN>, or dir, e.g. /verif/seeded/<prop>-<mN>)
 # Confirms in a scratch worktree of /repo HEAD: (1) patch applies and builds, (2) existing tests of the
 # touched packages still pass (known-bad ones ignored), (3) demo fails with the patch, passes without.
-prop=$1; m=$2; src=/tmp/seed-out/$prop/$m
+prop=$1; m=$2; src=${3:-/tmp/seed-out/$prop/$m}
 wt=/tmp/wt-confirm-$prop-$m
-log=/tmp/seed-out/$prop/$m/confirm.log
+log=$src/confirm.log
 exec > $log 2>&1
 export GOFLAGS=-mod=mod GOPROXY=off
 git -C /repo worktree remove --force $wt 2>/dev/null; rm -rf $wt
